@@ -347,7 +347,9 @@ Print Assumptions C11_admissible_set_members.
      not float-exact, one of the two integers next to it), m >= c or m within the window of c or there is no
      mass next to the interval, m minus ONE end bucket is < c or within the window of c, Ambiguous only if
      P(Lo) == P(Hi) or within the window.  The window (relative 2^-40) is OFF in the float-exact regime
-     [exact_regime n q] (n <= 20, q = a/2^e, e n <= 52): there the clauses are exact.
+     [exact_regime n q] (n <= 20, q = a/2^e, e n <= 52): there the clauses are exact.  And the observed
+     intervals of one line are NESTED as c grows [nest_in]: for any two items with c <= c' the interval of c'
+     contains the interval of c (equal c: equal intervals).
    - op 1 (n > 30) [normal_ok]: orders, c >= 1 short cut, and for c < 1 the band logic with respect to the
      OBSERVED Phi values [normal_clauses]: oracle values consistent with Normal(nq, nq(1-q)), outward rounding,
      K widenings each of a band with observed mass < c, trim, full-range fix-up, clamps, Confidence >= c.
@@ -359,7 +361,8 @@ Theorem C11_check_ok_sound : forall line, accepted (check_C11 line) ->
   exists rest,
     (line = 11%Z :: 0%Z :: rest /\
        exists n qb items q, p_op0 rest = Some ((n, qb, items), []) /\ decode_bits qb = XFin q /\
-         (1 <= n <= 30)%Z /\ 0 <= q <= 1 /\ Forall (small_item_ok n qb q (exact_regime n q)) items) \/
+         (1 <= n <= 30)%Z /\ 0 <= q <= 1 /\ Forall (small_item_ok n qb q (exact_regime n q)) items /\
+         (forall a b, In a items -> In b items -> fst a <= fst b -> nest_in a b)) \/
     (line = 11%Z :: 1%Z :: rest /\ exists cs, p_op1 rest = Some (cs, []) /\ normal_ok cs) \/
     (line = 11%Z :: 2%Z :: rest /\ exists c, p_op2 rest = Some (c, []) /\ sample_ok c).
 Proof. exact check_C11_ok_sound. Qed.
@@ -462,3 +465,18 @@ Example C11_rational_set_example :
   | None => False
   end.
 Proof. vm_compute. reflexivity. Qed.
+
+Example C11_check_ok_example :
+  (* three case lines as the harness printed them for /repo (integers of the line in decimal):
+     op 0  QuantileCI(2, 0.5, c) for c = 0.5, 0.9, 1;
+     op 1  QuantileCI(100, 0.5, 0.079655674554058) — the D19 witness: the rounded band [50, 51) is too light
+           (observed mass 0.07965567455405795 < c), it is widened once to [49, 52), and the left-biased trim
+           gives {49, 51, Ambiguous, 0.1577...}: tag 34176 = 128 + 256 + 1024 + 32768;
+     op 2  SampleCI of {N:3, LoOrder:1, HiOrder:3} on the sample [3, 1, 2].
+     All three are accepted — so the hypothesis of C11_check_ok_sound is satisfiable for each operation —
+     and the op-1 line with its Confidence lowered by one ulp is rejected. *)
+  check_C11 [11; 0; 2; 4602678819172646912; 3; 4602678819172646912; 2; 4602678819172646912; 4602678819172646912; 1; 2; 0; 4606281698874543309; 2; 4602678819172646912; 4607182418800017408; 0; 3; 0; 4607182418800017408; 2; 4602678819172646912; 4607182418800017408; 0; 3; 0]%Z = [0; 87; -1]%Z /\
+  check_C11 [11; 1; 100; 4602678819172646912; 4590404216922998546; 4632233691727265792; 4617315517961601024; 4632163322983088128; 4632304060471443456; 50; 51; 4597664433683061702; 4594851176051756966; 4601961344640167710; 4603740870846712697; 4600554715824515343; 4603037556438886513; 1; 4590404216922998544; 4603037556438886513; 4601961344640167710; 100; 4602678819172646912; 4594851176051756966; 49; 51; 1]%Z = [0; 34176; -1]%Z /\
+  check_C11 [11; 2; 3; 1; 3; 4602678819172646912; 0; 0; 0; 3; 4613937818241073152; 4607182418800017408; 4611686018427387904; 3; 4613937818241073152; 4607182418800017408; 4611686018427387904; 4611686018427387904; 4607182418800017408; 4613937818241073152; 4611686018427387904]%Z = [0; 1024; -1]%Z /\
+  hd 0%Z (check_C11 [11; 1; 100; 4602678819172646912; 4590404216922998546; 4632233691727265792; 4617315517961601024; 4632163322983088128; 4632304060471443456; 50; 51; 4597664433683061702; 4594851176051756966; 4601961344640167710; 4603740870846712697; 4600554715824515343; 4603037556438886513; 1; 4590404216922998544; 4603037556438886513; 4601961344640167710; 100; 4602678819172646912; 4594851176051756965; 49; 51; 1]%Z) = 2%Z.
+Proof. vm_compute. repeat split; reflexivity. Qed.
